@@ -18,6 +18,7 @@ Template directives (each on its own line, introduced by `//@@`):
   //@@ check-struct file=<path> name=<T> fields="a: A, b: B" [drop="c, d"]
   //@@ check-enum   file=<path> name=<T> variants="A, B, C"
   //@@ include <relative file>
+  //@@ impl file=<path> impl="impl X" [except=f,g] [header="impl X"]   (copies the whole impl block; following //@@ rw lines apply)
   //@@ consts file=<path>                                  (copies the module-level `const` items of the file)
 
 Between `fn|slice` and `end`, the engine emits:   <signature> <contract> { <pre> <body> }
@@ -158,6 +159,46 @@ class Gen:
                         sub = [re.sub(r"(//\s*@ob\s+)", r"\g<1>" + pre + "/", l) for l in sub]
                 out.extend(sub)
                 i += 1
+            elif head == "impl":
+                # copy a whole impl block (all its methods, verbatim) except the listed functions
+                kv = parse_kv(rest)
+                isrc, imasked = self.src(kv["file"])
+                blocks = rsx.find_impl(imasked, kv["impl"])
+                drop = [x.strip() for x in kv.get("except", "").split(",") if x.strip()]
+                rules = []
+                j = i + 1
+                while j < len(lines) and lines[j].strip().startswith("//@@ rw "):
+                    rules.append(parse_rw(lines[j].strip()[len("//@@ rw "):]))
+                    j += 1
+                for (lo, hi) in blocks:
+                    cuts = []
+                    for fn in drop:
+                        try:
+                            f = rsx.find_fn(isrc, imasked, fn, lo, hi)
+                        except ExtractError:
+                            continue
+                        a = f["sig_start"]
+                        # include preceding doc comments / attributes
+                        while True:
+                            ls = isrc.rfind("\n", 0, a - 1)
+                            prev = isrc[isrc.rfind("\n", 0, ls) + 1:ls] if ls > 0 else ""
+                            if prev.strip().startswith("//") or prev.strip().startswith("#["):
+                                a = isrc.rfind("\n", 0, ls) + 1
+                            else:
+                                break
+                        cuts.append((a, f["body_close"] + 1))
+                    text = isrc[lo + 1:hi]
+                    for a, b in sorted(cuts, reverse=True):
+                        text = text[:a - lo - 1] + text[b - lo - 1:]
+                    text = apply_rw(text, GLOBAL_RW, kv["file"] + " " + kv["impl"])
+                    text = apply_rw(text, rules, kv["file"] + " " + kv["impl"])
+                    self.items.append({"name": re.sub(r"[^A-Za-z0-9_]", "", kv["impl"].replace("impl", "")) + ".*", "kind": "impl", "file": kv["file"],
+                                       "line": rsx.line_of(isrc, lo), "impl": kv["impl"], "src_name": "(all methods" + (" except " + ",".join(drop) if drop else "") + ")",
+                                       "gen_lo": len(out) + 1, "gen_hi": len(out) + 1 + text.count("\n")})
+                    out.append(kv.get("header", kv["impl"]) + " {")
+                    out.extend(text.split("\n"))
+                    out.append("}")
+                i = j
             elif head == "consts":
                 kv = parse_kv(rest)
                 csrc, cmasked = self.src(kv["file"])
@@ -304,10 +345,14 @@ class Gen:
                     raise ExtractError("%s: start anchor /%s/ matched %d times" % (where, ps.pattern, len(ms)))
                 a = mb.rfind("\n", 0, ms[0].start()) + 1
                 me = [m for m in pe.finditer(mb) if m.start() >= ms[0].start()]
+                if kv.get("end") == "$":
+                    me = [re.compile(r"\Z").search(mb)]       # to the end of the function body
                 if not me:
                     raise ExtractError("%s: end anchor /%s/ not found after start" % (where, pe.pattern))
                 e = me[0]
-                if "endblock" in kv:
+                if kv.get("end") == "$":
+                    b = len(mb)
+                elif "endblock" in kv:
                     # the range ends with the brace-matched block that follows the end anchor
                     k = mb.find("{", e.end() - 1 if mb[e.end() - 1] == "{" else e.end())
                     if k < 0:
